@@ -74,6 +74,8 @@ def _names_of(pred, TRr, notes):
 
 
 def run(db, chk) -> None:
+    from ..specs.discipline import check_facade_stateless
+    check_facade_stateless(db, chk, "C15.R-facade-stateless", ['get_cuda_kernel_launch_stats'])
     from ..specs.discipline import check_stateless
     check_stateless(db, chk, "C15.R-stateless", ['hta.analyzers.cuda_kernel_analysis'])      # the result is a function of the arguments: no state kept between calls, caller's Trace untouched
     chk.floor("C15.R-stateless", 4)
